@@ -370,6 +370,25 @@ func Solve(o *Obligation, scratch string, quickCap, fullCap int, crossCheck bool
 			}()
 		}
 	}
+	// a further contender: z3 with its automatic strategy selection and model-based quantifier instantiation switched
+	// off, i.e. plain E-matching on the (explicit and inferred) triggers. On large queries the automatic configuration
+	// sometimes never instantiates the one universally quantified hypothesis that closes the goal; this one does so at
+	// once. Only its "unsat" is used (a proof found by a different search strategy is still a proof); without MBQI it
+	// cannot establish "sat" for quantified queries, and whatever else it answers is discarded.
+	if strings.Contains(q, "(forall") && !o.ExpectFail {
+		wg.Add(1)
+		go func() {
+			defer wg.Done()
+			sp := solverSpec{"z3-new/ematching", func(f string, t int) []string {
+				return []string{"z3-new", fmt.Sprintf("-T:%d", t), "smt.auto_config=false", "smt.mbqi=false", f}
+			}}
+			r := runSolver(rctx, sp, file, fullCap)
+			if r.status != "unsat" {
+				r.status, r.out = "unknown", "(e-matching-only run undecided)"
+			}
+			ch <- r
+		}()
+	}
 	go func() { wg.Wait(); close(ch) }()
 	var total int64 = r.ms
 	var last solveResult = firstErr
